@@ -138,6 +138,8 @@ class ModuleInfo:
             self.tree = ast.parse(source, filename=relpath)
         except SyntaxError as e:
             raise AnalysisError("syntax error in %s: %s" % (relpath, e))
+        from . import alpha
+        self.renamed_locals = alpha.normalise_module(self.tree, relpath)
         self.functions = {}
         self.classes = {}
         self.constants = {}
